@@ -313,6 +313,10 @@ fn enum_hist(t: Tier, shard: usize, nsh: usize, f: &mut dyn FnMut(Hist) -> bool)
                     if !f(Hist { ops: ops.clone(), questions: vec![q.clone(), s.clone()], id: mask as u16 ^ 0x5555 }) {
                         return;
                     }
+                    // and in the other order (the question asking for unicast delivery first)
+                    if !f(Hist { ops: ops.clone(), questions: vec![s.clone(), q.clone()], id: mask as u16 ^ 0x2aaa }) {
+                        return;
+                    }
                 }
             }
         }
@@ -455,7 +459,7 @@ pub fn def() -> CheckDef {
     let _ = gen::pick(0, 1);
     CheckDef {
         id: "C13",
-        rule: "model-based: a set-based reference store (key = owner, class, rdata; kind authoritative / cached / ambiguous) and an independent matcher give, for every query, a lower bound (authoritative records whose owner equals a question name and that match its type and class: must be answered) and an upper bound (authoritative or ambiguous records whose owner equals or is a label-wise subdomain of a question name and match: may be answered); additional records must be registered A/AAAA records owned by the target of an SRV answer; id, response flag, unicast = OR of the questions' bits; no reply iff nothing may be answered. (1) bounded-exhaustive: every subset of <= 3 (4 thorough) records of a 15-record catalogue whose names collide under concatenation and byte-prefixing (foobar / bar.foo / foo.bar, _my.local / _mysrv.local, a.b.local / ba.local) x 360 single questions (12 names x 10 QTYPEs x 3 QCLASSes) and a sample of question pairs; (2) random histories of add-authoritative / add-cached / remove / clear over 1..3-label names from {a,b,ab,ba,_my,_mysrv,foo,bar,foobar,local} with A, AAAA, SRV, TXT, PTR, MB, MG, MR, MX, NULL, unknown RDATA, classes IN/CH, and 0..2 questions over 13 QTYPEs x {IN, CH, ANY} x unicast. Non-trivial = the store is non-empty and a question name is a byte-prefix (after concatenation) of a different, non-subdomain registered name",
+        rule: "model-based: a set-based reference store (key = owner, class, rdata; kind authoritative / cached) and an independent matcher give, for every query, a lower bound (authoritative records whose owner equals a question name and that match its type and class: must be answered) and an upper bound (authoritative records whose owner equals or is a label-wise subdomain of a question name and match: may be answered); additional records must be registered A/AAAA records owned by the target of an SRV answer; id, response flag, unicast = OR of the questions' bits; no reply iff nothing may be answered. (1) bounded-exhaustive: every subset of <= 3 (4 thorough) records of a 17-record catalogue (all five classes, a CNAME at an SRV target) whose names collide under concatenation and byte-prefixing (foobar / bar.foo / foo.bar, _my.local / _mysrv.local, a.b.local / ba.local) x 528 single questions (12 names x 11 QTYPEs x 4 QCLASSes) and a sample of question pairs in both orders (one asking for unicast delivery, one not); (2) random histories of add-authoritative / add-cached / remove / clear over 1..3-label names from {a,b,ab,ba,_my,_mysrv,foo,bar,foobar,local} with A, AAAA, SRV, TXT, PTR, MB, MG, MR, MX, NULL, unknown RDATA and records of every other type, classes IN/CS/CH/HS/NONE, and 0..2 questions over all QTYPEs x all QCLASSes x unicast, some named after name-like strings of the sources. Non-trivial = the store is non-empty and a question name is a byte-prefix (after concatenation) of a different, non-subdomain registered name",
         assumptions: vec![
             "lowercase names only (case-sensitivity of name equality is not part of the statement)",
             "MAILA / AXFR / IXFR: the statement is silent; such questions never require an answer and admit any type",
